@@ -102,5 +102,68 @@ def check_incr(o):
     return bad
 
 
+def check_blocks(o):
+    """k features per vertex: the assembly rule of the specification with numpy's inverse as the block symbol"""
+    from menpo.model import GMRFVectorModel
+
+    bad = []
+    c = o["case"]
+    nv, k = o["nv"], o["k"]
+    rng = np.random.RandomState(11)
+    data = rng.randint(0, 7, size=(9, nv * k)).astype(float) + rng.rand(9, nv * k) * 0.25
+    pl = o["placement"]
+    Q = np.zeros((nv * k, nv * k))
+    if pl["edges"]:
+        for e in pl["edges"]:
+            a, b = slice(e["a"]["from"], e["a"]["to"]), slice(e["b"]["from"], e["b"]["to"])
+            if c["mode"] == "concatenation":
+                inv = np.linalg.inv(np.atleast_2d(np.cov(np.hstack([data[:, a], data[:, b]]), rowvar=0, bias=c["bias"])))
+                Q[a, a] += inv[:k, :k]
+                Q[b, b] += inv[k:, k:]
+                Q[a, b] += inv[:k, k:]
+                Q[b, a] += inv[k:, :k]
+            else:
+                inv = np.linalg.inv(np.atleast_2d(np.cov(data[:, a] - data[:, b], rowvar=0, bias=c["bias"])))
+                Q[a, a] += inv
+                Q[b, b] += inv
+                Q[a, b] -= inv
+                Q[b, a] -= inv
+    else:
+        for r in pl["diagonal"]:
+            a = slice(r["from"], r["to"])
+            Q[a, a] = np.linalg.inv(np.atleast_2d(np.cov(data[:, a], rowvar=0, bias=c["bias"])))
+    mean = data.mean(axis=0)
+    qs = np.vstack([mean + 1.0, mean * 0.5, np.arange(nv * k, dtype=float)])
+    want_m = np.einsum("ij,jk,ik->i", qs - mean, Q, qs - mean)
+    for gname, g in _graphs(nv, c["E"]):
+        models = {}
+        for sparse in (True, False):
+            tag = "k=%d %s graph, %s storage" % (k, gname, "sparse" if sparse else "dense")
+            m = GMRFVectorModel(data.copy(), g, mode=c["mode"], sparse=sparse, bias=c["bias"])
+            try:
+                P = _dense(m.precision).astype(float)
+            except Exception as e:
+                bad.append((tag + ": malformed precision (%s)" % type(e).__name__, {"edges": c["E"]}, None))
+                continue
+            models[sparse] = P
+            sc = max(1.0, np.abs(Q).max())
+            if P.shape != Q.shape or not np.allclose(P, Q, atol=1e-8 * sc):
+                bad.append((tag + ": precision is not the sum of the inverted block covariances placed at their blocks", {"edges": c["E"], "mode": c["mode"]}, None))
+                continue
+            if not np.allclose(P, P.T, atol=1e-9 * sc) or np.linalg.eigvalsh((P + P.T) / 2).min() < -1e-7 * sc:
+                bad.append((tag + ": precision not symmetric positive semi-definite", {}, None))
+            got = np.asarray(m.mahalanobis_distance(qs), dtype=float)
+            one = np.array([float(m.mahalanobis_distance(q)) for q in qs])
+            if not np.allclose(got, want_m, rtol=1e-7, atol=1e-7) or not np.allclose(one, want_m, rtol=1e-7, atol=1e-7):
+                bad.append((tag + ": Mahalanobis distances differ", {}, None))
+            if abs(float(m.mahalanobis_distance(mean))) > 1e-7 or not np.allclose(m.mean(), mean):
+                bad.append((tag + ": mean / distance at the mean wrong", {}, None))
+        if len(models) == 2 and not np.allclose(models[True], models[False], atol=1e-10):
+            bad.append(("k=%d %s graph: sparse and dense precision differ" % (k, gname), {"edges": c["E"]}, None))
+    return bad
+
+
 def run_case(o):
+    if o["case"]["kind"] == "blocks":
+        return check_blocks(o)
     return check_batch(o) if o["case"]["kind"] == "batch" else check_incr(o)
